@@ -1,4 +1,4 @@
-CONSTANTS Families = {"one", "rsv"}  Bug = "RootNotCleared"  Emit = FALSE
+CONSTANTS Families = {"mini"}  Bug = "RootNotCleared"  Emit = FALSE
   TwoFlags = {}
   TwoSizes = {}
   ThreeSizes = {}
